@@ -70,12 +70,17 @@ func (p c19) Run(c *core.Ctx, idx int) {
 	o.Choices = idx%3 == 0
 	o.NestedChoice = idx%6 == 0
 	o.Aug = idx%4 == 1
+	o.Sub = idx%4 == 3 // some top-level nodes written in a submodule: they have the module's namespace
 	o.Presence = true
 	o.MaxDepth = 2 + r.Intn(3)
 	if idx%5 == 4 {
 		o.Types = []string{"string", "enumeration", "empty", "bits", "identityref", "binary", "boolean", "uint64", "int64", "decimal64"}
 	}
 	s := dp.GenSchema(r, o)
+	if idx%7 == 5 {
+		// a namespace URI is an attribute value like any other
+		s.NS = "urn:m?a=1&b='2'"
+	}
 	if err := s.Compile(); err != nil {
 		c.R.Inconclusive = "generated schema does not compile: " + head(err.Error(), 300)
 		return
@@ -89,8 +94,8 @@ func (p c19) Run(c *core.Ctx, idx int) {
 	}
 	do.MaxEntries = 1 + r.Intn(3)
 	t := dp.GenTree(r, s, do)
-	wit := func() string { return "schema:\n" + s.Yang() + s.AugYang() + "tree:\n" + t.Dump(s) }
-	c.SetSample(map[string]interface{}{"yang": head(s.Yang()+s.AugYang(), 1500), "tree": head(t.Dump(s), 1000)})
+	wit := func() string { return "schema:\n" + s.Yang() + s.AugYang() + s.SubYang() + "tree:\n" + t.Dump(s) }
+	c.SetSample(map[string]interface{}{"yang": head(s.Yang()+s.AugYang()+s.SubYang(), 1500), "tree": head(t.Dump(s), 1000)})
 	src := dp.NewStore(s, t)
 	b := src.Browser()
 	fam := "text"
